@@ -10,7 +10,8 @@ from vlib import drive
 PROPERTY = "C17"
 RULE = ("twin: dimension-wise density estimation (SpatiallyAdaptiveSingleDimensions2 + DensityEstimation on a "
         "GlobalTrapezoidalGrid without boundary points) is run twice on the same data (2D, thorough also 3D; 20-80 samples; "
-        "uniform / clustered / snapped-to-grid-lines / 'lattice' = copies of M/5 distinct sites, half of them on k/16 "
+        "uniform / clustered / snapped-to-grid-lines / 'ties' = 2..30 samples sharing exactly one coordinate value: 1.0, 0.0, "
+        "grid lines of levels 1-6, plus duplicated samples / 'lattice' = copies of M/5 distinct sites, half of them on k/16 "
         "(exact duplicates whose labels are drawn independently per copy, so one site carries both labels) inside (0,1)^d with "
         "pre_scaled_data=True, or raw data that the library min-max scales itself), lambda, class labelling (none / +1,-1 / the one-vs-others weights +1 and max(-1,-n_class/n_others) of "
         "DataSet.split_one_vs_others / arbitrary real weights from {0.5,2,-3,0,1,-1,-0.25}), mass lumping on/off, rebalancing on/off, (lmin,lmax) in "
@@ -153,6 +154,32 @@ def mixed_duplicates(x, signs):
     return len(dup), mixed
 
 
+def add_ties(x, rng, lines=None):
+    """heavy ties in place: 2..30 samples share exactly one coordinate value - the upper domain end 1.0 (always, in one
+    dimension), the lower end 0.0, grid lines of several levels - plus a few duplicated whole samples"""
+    M, dim = x.shape
+    kmax = max(2, min(30, M // 2))
+    d1 = int(rng.integers(0, dim))
+    groups = [(d1, 1.0), (int(rng.integers(0, dim)), 0.0)]
+    if rng.uniform() < 0.5:
+        groups.append(((d1 + 1) % dim, 1.0))
+    for _ in range(int(rng.integers(1, 4))):
+        d = int(rng.integers(0, dim))
+        if lines is not None:
+            v = float(lines[d][int(rng.integers(0, len(lines[d])))])
+        else:
+            lev = int(rng.integers(1, 7))
+            v = int(rng.integers(1, 2 ** lev)) / 2.0 ** lev
+        groups.append((d, v))
+    for d, v in groups:
+        k = int(rng.integers(2, kmax + 1))
+        x[rng.choice(M, size=k, replace=False), d] = v
+    for _ in range(int(rng.integers(1, 4))):            # duplicated whole samples
+        src = int(rng.integers(0, M))
+        x[rng.choice(M, size=int(rng.integers(1, 4)), replace=False)] = x[src]
+    return x
+
+
 def make_data(case):
     """returns (data handed to the library, pre_scaled flag, signs or None, evaluation points)"""
     rng = np.random.default_rng(case["rng"])
@@ -171,6 +198,8 @@ def make_data(case):
             lev = int(rng.integers(1, 6))
             x[j, d] = int(rng.integers(1, 2 ** lev)) / 2.0 ** lev
         x[k, :] = [int(rng.integers(1, 8)) / 8.0 for _ in range(dim)]
+    if kind == "ties":
+        x = add_ties(x, rng)
     if kind == "lattice":                   # few distinct sites (discrete features): exact duplicates are frequent
         n_sites = max(3, M // 5)
         sites = rng.uniform(0.02, 0.98, size=(n_sites, dim))
@@ -453,6 +482,13 @@ def run_twin(case):
     if case.get("directed"):
         out.cls("directed-one-sided-refinement")
     out.cls("boundary=%s" % bool(case.get("boundary", False)))
+    xs_ = np.asarray(op_on.data, dtype=float)
+    if any(int(np.sum(xs_[:, d] == 1.0)) >= 2 for d in range(xs_.shape[1])):
+        out.cls(">=2-samples-exactly-on-upper-domain-end")
+        if case.get("boundary") and s["reuse_rhs"]:
+            out.cls(">=2-samples-exactly-on-upper-domain-end&boundary=True&grid>=200&reuse&evaluation>=1")
+    if any(int(np.sum(xs_[:, d] == 0.0)) >= 2 for d in range(xs_.shape[1])):
+        out.cls(">=2-samples-exactly-on-lower-domain-end")
     if case.get("boundary"):
         if s["big"]:
             out.cls("boundary=True&grid>=200&reuse=off")        # the reuse-off run solves every grid without the cache
@@ -500,7 +536,7 @@ def twin_strategy(tier):
     def s(draw):
         flavour = draw(st.sampled_from(["regular", "regular", "directed", "directed", "smalldim"]))
         directed = flavour == "directed"
-        kind = draw(st.sampled_from(["uniform", "clustered", "snapped", "minmax", "minmax", "lattice", "lattice"]))
+        kind = draw(st.sampled_from(["uniform", "clustered", "snapped", "minmax", "minmax", "lattice", "lattice", "ties"]))
         common = dict(M=draw(st.integers(20, 80)), data=kind,
                       labels=draw(st.sampled_from(["pm1", "ovo", "real", "none"] if kind == "lattice" else
                                                   ["none", "none", "pm1", "pm1", "ovo", "ovo", "real"])), lambd=draw(st.sampled_from([0.01, 0.0, 1e-4, 0.1, 1.0])),
@@ -531,10 +567,19 @@ def twin_strategy(tier):
             # grid WITH boundary points (half hats at the domain ends; the stripes are the grid points): 81..165-point grids
             # at evaluation 0 that pass 200 points after one or two steps
             lmin, lmax = draw(st.sampled_from([(2, 4), (2, 5), (3, 4), (3, 4)]))
-            return dict(dim=2, lmin=lmin, lmax=lmax, directed=False, boundary=True, masslumping=draw(st.booleans()),
+            if draw(st.booleans()):
+                common["data"] = "ties"     # several samples exactly on a domain end / on one grid line: only the half hats
+                                            # of a boundary grid have their peak on the end of their domain
+            lumped = draw(st.booleans())
+            if draw(st.booleans()):         # refinement next to the lower / upper faces (targets 0.006..0.05 / 0.94..0.99);
+                mode = draw(st.sampled_from([5, 6]))        # one-sided refinement grows coarse grids slowly: start at 289/297
+                tape = [draw(st.sampled_from(NEAR_END)), draw(st.sampled_from(NEAR_END))] + tape[:4]
+                lmin, lmax = 3, 5
+                lumped = draw(st.sampled_from([True, True, True, False]))
+            return dict(dim=2, lmin=lmin, lmax=lmax, directed=False, boundary=True, masslumping=lumped,
                         rebalancing=draw(st.booleans()), margin=draw(st.sampled_from([0.5, 0.9, 0.0, 1.0])),
-                        maxsteps=draw(st.sampled_from([1, 2, 2, 3])),
-                        budget=600000 if tier == "quick" else 1500000, tape=tape, mode=mode, **common)
+                        maxsteps=draw(st.sampled_from([1, 2, 2, 3]) if mode not in (5, 6) else st.sampled_from([1, 2, 3])),
+                        budget=750000 if tier == "quick" else 1500000, tape=tape, mode=mode, **common)
         dim = 2 if tier == "quick" else draw(st.sampled_from([2, 2, 3]))
         lmin, lmax = draw(st.sampled_from(LEVELS_2D if dim == 2 else LEVELS_3D))
         return dict(dim=dim, lmin=lmin, lmax=lmax, directed=False, boundary=False,
@@ -569,7 +614,13 @@ def twin_fixed():
             dict(dim=2, lmin=3, lmax=4, M=50, data="minmax", labels="pm1", lambd=0.01, masslumping=True, rebalancing=False,
                  boundary=True, margin=0.5, safety=0.1, maxsteps=1, budget=600000, tape=[0], mode=4, rng=6),
             dict(dim=2, lmin=2, lmax=5, M=40, data="snapped", labels="none", lambd=0.01, masslumping=False, rebalancing=True,
-                 boundary=True, margin=0.5, safety=0.1, maxsteps=2, budget=600000, tape=[5, 40, 22, 63, 9], mode=0, rng=7)]
+                 boundary=True, margin=0.5, safety=0.1, maxsteps=2, budget=600000, tape=[5, 40, 22, 63, 9], mode=0, rng=7),
+            # heavy ties (several samples exactly on x_d = 1.0, 0.0 and on grid lines) on boundary grids; refinement next to
+            # the upper faces (target 0.99, 0.99) / a uniform step: the half hats on the faces are recomputed by the reuse branch
+            dict(dim=2, lmin=3, lmax=5, M=60, data="ties", labels="none", lambd=0.01, masslumping=True, rebalancing=False,
+                 boundary=True, margin=0.9, safety=0.1, maxsteps=2, budget=600000, tape=[63, 63, 7, 20], mode=5, rng=8),
+            dict(dim=2, lmin=3, lmax=4, M=40, data="ties", labels="pm1", lambd=0.01, masslumping=False, rebalancing=True,
+                 boundary=True, margin=0.5, safety=0.1, maxsteps=1, budget=600000, tape=[0], mode=4, rng=9)]
 
 
 # ------------------------------------------------------------------------------------------------------------
@@ -645,6 +696,8 @@ def paths_data(case, stripes, rng):
         pick = rng.integers(0, n_sites, size=M)
         pick[0] = pick[1] = 2 if n_sites > 2 else 0
         x = sites[pick]
+    if case["data"] == "ties":
+        x = add_ties(x, rng, lines=stripes)
     if case["data"] == "edge":                      # what the library's own min-max scaling produces: extremes on 0 and 1
         for d in range(dim):
             x[int(np.argmin(x[:, d])), d] = 0.0
@@ -732,7 +785,7 @@ def run_paths(case):
     d2, r2 = _cmp_paths(out, sub, "interpolation-" + kname, i_small, i_large, ref_interp(alphas, stripes, pts, bnd), tag)
     aniso = len(set(len(s) for s in stripes)) > 1
     nonuni = not uniform and any(len(set(np.round(np.diff(s), 12))) > 1 for s in stripes)
-    out.nontrivial = 150 <= N <= 260 and (aniso or nonuni) and case["data"] in ("snapped", "edge", "lattice")
+    out.nontrivial = 150 <= N <= 260 and (aniso or nonuni) and case["data"] in ("snapped", "edge", "lattice", "ties")
     ndup, nmixed = mixed_duplicates(data, signs)
     if ndup:
         out.cls("duplicate-sites")
@@ -759,7 +812,7 @@ def paths_strategy(tier):
     def s(draw):
         dim = draw(st.sampled_from([2, 2, 3]))
         kind = draw(st.sampled_from(["dw", "dw", "uniform"]))
-        dkind = draw(st.sampled_from(["snapped", "edge", "inside", "lattice", "lattice"]))
+        dkind = draw(st.sampled_from(["snapped", "edge", "inside", "lattice", "lattice", "ties", "ties"]))
         case = dict(kind=kind, M=draw(st.integers(20, 80)), data=dkind,
                     labels=draw(st.sampled_from(["pm1", "ovo", "real", "none"] if dkind == "lattice" else
                                                 ["none", "pm1", "pm1", "ovo", "real"])), npts=draw(st.integers(12, 40)), boundary_pts=draw(st.booleans()),
